@@ -100,11 +100,13 @@ def pymod(a, b):
 class SymInt:
     """Unbounded mathematical integer (z3 Int).  Deliberately NOT a subclass of int:
     C code can only get at it through __index__ (bounded-exhaustive forking or taint)."""
-    __slots__ = ("e",)
     const_hash = False  # switched on by harnesses that put proxies into dicts/sets
+    pytype = int        # exact int unless a harness says otherwise (an int subclass)
 
-    def __init__(self, e):
+    def __init__(self, e, pytype=None):
         self.e = e
+        if pytype is not None:
+            self.pytype = pytype
 
     def _bin(self, o, f):
         o = _z(o)
@@ -115,7 +117,9 @@ class SymInt:
             return r.as_long()   # (under the constant-hash discipline every int must stay a proxy)
         return SymInt(r)
 
-    def _cmp(self, o, f):
+    def _cmp(self, o, f, opname=None):
+        if isinstance(o, float):
+            return self._cmp_float(o, opname)
         o = _z(o)
         if o is NotImplemented:
             return NotImplemented
@@ -168,17 +172,36 @@ class SymInt:
             raise ZeroDivisionError("integer division or modulo by zero")
         return SymInt(z3.simplify(pymod(z, s.e)))
 
-    def __lt__(s, o): return s._cmp(o, lambda a, b: a < b)
-    def __le__(s, o): return s._cmp(o, lambda a, b: a <= b)
-    def __gt__(s, o): return s._cmp(o, lambda a, b: a > b)
-    def __ge__(s, o): return s._cmp(o, lambda a, b: a >= b)
+    def _cmp_float(self, x, opname):
+        """exact comparison of a mathematical integer with a concrete Python float (as CPython does it)"""
+        import math
+        if x != x:
+            return opname == "ne"
+        if x in (float("inf"), float("-inf")):
+            pos = x > 0
+            return {"eq": False, "ne": True, "lt": pos, "le": pos, "gt": not pos, "ge": not pos}[opname]
+        if x == int(x):
+            i = int(x)
+            return {"eq": self == i, "ne": self != i, "lt": self < i, "le": self <= i, "gt": self > i,
+                    "ge": self >= i}[opname]
+        lo, hi = math.floor(x), math.ceil(x)
+        return {"eq": False, "ne": True, "lt": self <= lo, "le": self <= lo, "gt": self >= hi, "ge": self >= hi}[opname]
+
+    def __lt__(s, o): return s._cmp(o, lambda a, b: a < b, "lt")
+    def __le__(s, o): return s._cmp(o, lambda a, b: a <= b, "le")
+    def __gt__(s, o): return s._cmp(o, lambda a, b: a > b, "gt")
+    def __ge__(s, o): return s._cmp(o, lambda a, b: a >= b, "ge")
 
     def __eq__(s, o):
-        r = s._cmp(o, lambda a, b: a == b)
+        if isinstance(o, (SymFloat, SymComplex)):
+            return NotImplemented
+        r = s._cmp(o, lambda a, b: a == b, "eq")
         return False if r is NotImplemented else r
 
     def __ne__(s, o):
-        r = s._cmp(o, lambda a, b: a != b)
+        if isinstance(o, (SymFloat, SymComplex)):
+            return NotImplemented
+        r = s._cmp(o, lambda a, b: a != b, "ne")
         return True if r is NotImplemented else r
 
     def __bool__(s):
@@ -219,6 +242,7 @@ class Result:
         self.queries = 0
         self.solver_s = 0.0
         self.checks = 0
+        self.paths_with_checks = 0
         self.violations = []      # dicts: label, values, reproduced(bool|None), detail
         self.inconclusive = []    # reasons
         self.witnesses = 0        # concrete replays of path witnesses that agreed
@@ -259,6 +283,18 @@ class Concrete:
             return None
         return int(self._get(name, 0))
 
+    def int64(self, name):
+        return int(self._get(name, 0))
+
+    def fp(self, name):
+        v = self._get(name, 0.0)
+        if isinstance(v, str):
+            try:
+                return float.fromhex(v)
+            except ValueError:
+                return float(v)
+        return float(v)
+
     def assume(self, cond):
         if not cond:
             raise PathAbort("assumption false in concrete replay")
@@ -279,7 +315,9 @@ class Concrete:
 class Explorer:
     sym = True
 
-    def __init__(self, name="", query_timeout_ms=20000, max_paths=20000, path_wall_s=20.0, total_wall_s=None):
+    def __init__(self, name="", query_timeout_ms=20000, max_paths=20000, path_wall_s=20.0, total_wall_s=None,
+                 fast_fp=False):
+        self.fast_fp = fast_fp      # also keep a bit-blasting tactic solver (much faster on FP/BV-only path conditions)
         self.res = Result(name)
         self.query_timeout_ms = query_timeout_ms
         self.max_paths = max_paths
@@ -313,8 +351,10 @@ class Explorer:
 
     def choice(self, name, n):
         """a symbolic selector in range(n), concretised right away by forking"""
-        v = self._decl(name, z3.Int(name), "int")
-        self._add(z3.And(v >= 0, v < n))
+        if n > 255:
+            raise HarnessError("choice() supports at most 255 alternatives")
+        v = self._decl(name, z3.BitVec(name, 8), "bv")     # bit-vector, so FP/BV-only paths stay Int-free
+        self._add(z3.ULT(v, n))
         self.cur_model = None
         for k in range(n - 1):
             if self.decide(v == k):
@@ -327,6 +367,16 @@ class Explorer:
             return None
         return SymInt(self._decl(name, z3.Int(name), "int"))
 
+    def fp(self, name):
+        return SymFloat(self._decl(name, z3.FP(name, F64), "fp"))
+
+    def int64(self, name):
+        """an integer in [-2**63, 2**63) backed by a 64-bit bit-vector (exact, fast int -> double conversion)"""
+        b = self._decl(name, z3.BitVec(name, 64), "sbv")
+        v = SymInt(z3.BV2Int(b, True))
+        v.bv64 = b
+        return v
+
     # ---- solver plumbing ---------------------------------------------------------------
     def _add(self, c):
         self.pending.append(c)
@@ -335,12 +385,44 @@ class Explorer:
     def _flush(self):
         if self.pending:
             self.solver.add(*self.pending)
+            if self.fast is not None:
+                try:
+                    self.fast.add(*self.pending)
+                except z3.Z3Exception:
+                    self.fast = None
             self.pending = []
+
+    def _fast_check(self, extra):
+        """try the FP/BV bit-blasting pipeline; None when it does not apply (e.g. Int terms present)"""
+        if self.fast is None:
+            return None
+        try:
+            self.fast.push()
+            try:
+                if extra:
+                    self.fast.add(*extra)
+                r = self.fast.check()
+                if r == z3.sat:
+                    self.last_model = self.fast.model()
+                    return True
+                if r == z3.unsat:
+                    self.last_model = None
+                    return False
+            finally:
+                self.fast.pop()
+        except z3.Z3Exception:
+            pass
+        self.fast = None       # not applicable on this path: fall back to the general solver
+        return None
 
     def _check(self, *extra):
         t = time.time()
         self.res.queries += 1
         self._flush()
+        fr = self._fast_check(extra)
+        if fr is not None:
+            self.res.solver_s += time.time() - t
+            return fr
         if extra:
             self.solver.push()
             self.solver.add(*extra)
@@ -473,6 +555,7 @@ class Explorer:
         """discharge: under the path condition, cond holds for every value"""
         self._tick()
         self.res.checks += 1
+        self.path_checks += 1
         self.res.reached.add(label)
         if isinstance(cond, SymBool):
             cond = cond.e
@@ -505,6 +588,8 @@ class Explorer:
                 vals[name] = fp_to_py(v)
             elif kind == "bv":
                 vals[name] = v.as_long()
+            elif kind == "sbv":
+                vals[name] = v.as_signed_long()
             else:
                 raise HarnessError("unknown input kind " + kind)
         return vals
@@ -534,6 +619,10 @@ class Explorer:
             self.pos = 0
             self.solver = z3.Solver()
             self.solver.set("timeout", self.query_timeout_ms)
+            self.fast = None
+            if self.fast_fp:
+                self.fast = z3.Then("simplify", "fpa2bv", "bit-blast", "sat").solver()
+                self.fast.set("timeout", self.query_timeout_ms)
             self.pc = []
             self.pending = []
             self.inputs = {}
@@ -543,6 +632,7 @@ class Explorer:
             self.cache = {}
             self.cur_model = None
             self.path_violations = []
+            self.path_checks = 0
             self.path_t0 = time.time()
             prev, CUR = CUR, self
             obs = None
@@ -575,6 +665,8 @@ class Explorer:
                 res.aborted_paths += 1
                 continue
             res.paths += 1
+            if self.path_checks:
+                res.paths_with_checks += 1
             if self.on_path_end:
                 CUR = self
                 try:
@@ -588,6 +680,8 @@ class Explorer:
 
     def path_model(self):
         self._flush()
+        if self._fast_check(()) is True:
+            return self.last_model
         if self.solver.check() != z3.sat:
             return None
         return self.solver.model()
@@ -621,3 +715,154 @@ def evaluate(obs, model):
     if hasattr(obs, "__sym_eval__"):
         return obs.__sym_eval__(model)
     return obs
+
+
+# ---------------------------------------------------------------------------------------
+# floats / complex numbers / opaque conversion results (used by csym and the Python-side shadows)
+
+F64 = z3.Float64()
+RNE = z3.RNE()
+TWO63 = 2 ** 63
+# PyLong_AsDouble raises OverflowError iff the integer rounds to infinity: |v| >= 2**1024 - 2**970
+I2D_OVERFLOW = 2 ** 1024 - 2 ** 970
+
+_i2d_big = z3.Function("i2d_big", z3.IntSort(), F64)      # |v| >= 2**63: uninterpreted, constrained below
+_d2i = z3.Function("d2i", F64, z3.IntSort())              # int(float) truncation, uninterpreted
+
+
+def fpval(x):
+    if isinstance(x, SymFloat):
+        return x.f
+    if isinstance(x, float):
+        return z3.FPVal(x, F64)
+    if isinstance(x, bool):
+        return z3.FPVal(float(x), F64)
+    if isinstance(x, int):
+        return z3.FPVal(float(x), F64)
+    if z3.is_fp(x):
+        return x
+    return NotImplemented
+
+
+class SymFloat:
+    """IEEE double (z3 Float64) - never a real.  pytype: float or a float subclass."""
+
+    def __init__(self, f, pytype=float):
+        self.f = f
+        self.pytype = pytype
+
+    def _cmp(s, o, fn):
+        z = fpval(o) if not isinstance(o, SymInt) else int_to_double_term(o)
+        if z is NotImplemented:
+            return NotImplemented
+        r = z3.simplify(fn(s.f, z))
+        if z3.is_true(r):
+            return True
+        if z3.is_false(r):
+            return False
+        return SymBool(r, True)
+
+    def __lt__(s, o): return s._cmp(o, z3.fpLT)
+    def __le__(s, o): return s._cmp(o, z3.fpLEQ)
+    def __gt__(s, o): return s._cmp(o, z3.fpGT)
+    def __ge__(s, o): return s._cmp(o, z3.fpGEQ)
+
+    def __eq__(s, o):
+        r = s._cmp(o, z3.fpEQ)
+        return False if r is NotImplemented else r
+
+    def __ne__(s, o):
+        r = s._cmp(o, z3.fpNEQ)
+        return True if r is NotImplemented else r
+
+    def __bool__(s):
+        return CUR.decide(z3.Not(z3.fpIsZero(s.f)))
+
+    def __hash__(s):
+        CUR.taint("hash() of a symbolic float (unmodelled C boundary)")
+
+    def __float__(s):
+        CUR.taint("float() of a symbolic float reached a C boundary")
+
+    def __repr__(s): return "<symfloat>"
+    __str__ = __repr__
+
+    def __format__(s, spec): return "<symfloat>"
+
+
+class SymComplex:
+    def __init__(self, re, im, pytype=complex):
+        self.re, self.im, self.pytype = re, im, pytype
+
+    def _parts_of(self, o):
+        if isinstance(o, SymComplex):
+            return o.re, o.im
+        if isinstance(o, complex):
+            return z3.FPVal(o.real, F64), z3.FPVal(o.imag, F64)
+        f = fpval(o) if not isinstance(o, SymInt) else int_to_double_term(o)
+        if f is NotImplemented:
+            return None
+        return f, z3.FPVal(0.0, F64)
+
+    def __eq__(self, o):
+        p = self._parts_of(o)
+        if p is None:
+            return False
+        return SymBool(z3.simplify(z3.And(z3.fpEQ(self.re, p[0]), z3.fpEQ(self.im, p[1]))))
+
+    def __ne__(self, o):
+        p = self._parts_of(o)
+        if p is None:
+            return True
+        return SymBool(z3.simplify(z3.Not(z3.And(z3.fpEQ(self.re, p[0]), z3.fpEQ(self.im, p[1])))))
+
+    def __repr__(s): return "<symcomplex>"
+    __str__ = __repr__
+
+    def __format__(s, spec): return "<symcomplex>"
+
+    def __hash__(s):
+        CUR.taint("hash() of a symbolic complex")
+
+
+class SymOpaque:
+    """result of a conversion we do not compute (str(x), bytes(n), int(float)): identified by its origin"""
+
+    def __init__(self, pytype, origin):
+        self.pytype = pytype
+        self.origin = origin      # hashable description incl. z3 term ids
+
+    def __repr__(s): return "<opaque %s>" % s.pytype.__name__
+    __str__ = __repr__
+
+    def __format__(s, spec): return repr(s)
+
+
+def int_to_double_term(v):
+    """z3 FP term for PyLong_AsDouble(v) under the *current path*: forks on |v| < 2**63 (exact, bit-vector based)
+    versus the stub range (uninterpreted, finite, magnitude >= 2**63).  Overflow is decided by the caller."""
+    b = getattr(v, "bv64", None)
+    if b is not None:
+        return z3.fpSignedToFP(RNE, b, F64)
+    e = z3.simplify(_z(v))
+    if z3.is_int_value(e):
+        return z3.FPVal(float(e.as_long()), F64)
+    # stated bound: a mathematical integer that gets converted to a double is inside [-2**63, 2**63)
+    # (the caller has already split off the OverflowError range; 2**63 <= |v| < 2**1024 is outside the claim)
+    CUR.assume(z3.And(e >= -TWO63, e < TWO63))
+    return z3.fpSignedToFP(RNE, z3.Int2BV(e, 64), F64)
+
+
+def double_to_int_term(f):
+    return _d2i(f)
+
+
+def pytype_of(x):
+    t = getattr(x, "pytype", None)
+    if t is not None and isinstance(x, (SymInt, SymFloat, SymComplex, SymOpaque)):
+        return t
+    return type(x)
+
+
+def is_proxy(x):
+    return isinstance(x, (SymInt, SymFloat, SymComplex, SymOpaque, SymBool))
